@@ -242,3 +242,55 @@ func judgeCRLF(c *fw.Ctx, src string, jo judgeOpts, multi h.Outcome, res *model.
 		c.Violate(r)
 	}
 }
+
+// batchVsSingle: every expression printed by a program of its own, then all of
+// them printed by one program, in the given order and in reverse: a result
+// computed earlier in a run must not change a later one.  Expressions that
+// fail on their own are left out of the batches.
+func batchVsSingle(c *fw.Ctx, sig string, prelude func() []*model.N, exprs []func() *model.N, stdin string) {
+	type one struct {
+		mk  func() *model.N
+		out string
+	}
+	var ok []one
+	for _, mk := range exprs {
+		src := model.Render(parenAll(append(prelude(), model.Print(mk()))))
+		o := h.RunFile(src, h.Opts{Stdin: stdin, StdinMode: 1})
+		c.Eval("single\x00"+src, true)
+		if o.Panic != "" || o.Diverged || o.Status != 0 || o.Stderr != "" {
+			continue
+		}
+		ok = append(ok, one{mk, o.Stdout})
+	}
+	if len(ok) < 2 {
+		return
+	}
+	for order := 0; order < 2; order++ {
+		prog := prelude()
+		want := ""
+		for k := range ok {
+			e := ok[k]
+			if order == 1 {
+				e = ok[len(ok)-1-k]
+			}
+			prog = append(prog, model.Print(e.mk()))
+			want += e.out
+		}
+		src := model.Render(parenAll(prog))
+		o := h.RunFile(src, h.Opts{Stdin: stdin, StdinMode: 1, Fuel: 2_000_000 + 40*int64(len(src))})
+		c.Eval("batch\x00"+src, true)
+		base := fw.Replay{Mode: "file", Program: src, Stdin: stdin, CLI: true, InStdout: o.Stdout, InStderr: o.Stderr, InStatus: o.Status}
+		if abnormal(c, o, "file", src, base) {
+			continue
+		}
+		c.Outcome(o.Stdout)
+		if o.Stdout != want || o.Status != 0 || o.Stderr != "" {
+			r := base
+			r.Sig = c.Check + "|earlier-results-change-later-ones|" + sig
+			r.What = "expressions printed by one program give other results than each printed by a program of its own"
+			r.Expected = want
+			r.Observed = fmt.Sprintf("stdout %q status %d stderr %q", o.Stdout, o.Status, trunc(o.Stderr, 120))
+			c.Violate(r)
+		}
+	}
+}
